@@ -337,6 +337,16 @@ def check_update_calls(chk, prog, sim):
         chk.discharge(key)
 
 
+def extra_arith(sim, leaf, wanted):
+    """overflow-guarded integer operations of a path whose result is not the value the function is there to produce: each is an
+    additional way to overflow (panic in debug builds) for arguments whose result is perfectly representable"""
+    out = []
+    for (op, a, b), r in zip(leaf.state.arith, leaf.state.arith_results):
+        if sim.resolve(leaf.state, r) != wanted:
+            out.append("%s(%s%s)" % (op, a, (", " + b) if b else ""))
+    return out
+
+
 def check_history_adapter(chk, prog, sim):
     key = "H:GetterFromHistory"
     chk.obligation(key, "history adapter time algebra")
@@ -378,7 +388,7 @@ def check_history_adapter(chk, prog, sim):
                     q = sim.final_value(leaf.state, hq[0][3][0]) if len(hq) == 1 else None
                     qt = q.fields[0] if isinstance(q, Struct) and len(q.fields) == 1 else None
                     exp_q = int_add(Sym("tnow"), Sym("self.time_delta.0"))
-                    good = qt == exp_q and (g == ("N",) if hcat == "N" else g == ("S", Sym("tnow"), Sym("vh")))
+                    good = qt == exp_q and (g == ("N",) if hcat == "N" else g == ("S", Sym("tnow"), Sym("vh"))) and not extra_arith(sim, leaf, exp_q)
                 if not good:
                     chk.violation("C15.H", key + ":get:%s%s" % (tcat, hcat), "GetterFromHistory::get (clock %s, history %s): history queried at %s, returns %r; expected query at now + delta, restamped with now"
                                   % (tcat, hcat, [sim.final_value(leaf.state, e[3][0]) for e in hq], g), fn=get["pretty"], file=loc(get["span"]))
@@ -430,6 +440,10 @@ def check_history_adapter(chk, prog, sim):
                 chk.violation("C15.H", key + ":" + cname, "%s sets the offset to %r, expected %r (so that the construction instant maps to the chosen history time)" % (cname, d, exp()),
                               fn=f["pretty"], file=loc(f["span"]))
                 ok = False
+            elif extra_arith(sim, leaf, d):
+                chk.violation("C15.H", key + ":" + cname + ":intermediate", "%s computes the offset %r through intermediate integer results %s: it overflows for instants whose offset is representable"
+                              % (cname, d, extra_arith(sim, leaf, d)), fn=f["pretty"], file=loc(f["span"]))
+                ok = False
     for sname, exp in (("set_delta", lambda: Sym("time_delta.0")), ("set_time", lambda: int_sub(Sym("time.0"), Sym("tnow")))):
         fs = [f for f in prog.find_fns(name=sname, self_name=name) if not f.get("impl_trait")]
         if len(fs) != 1:
@@ -460,6 +474,10 @@ def check_history_adapter(chk, prog, sim):
             d = delta_of(leaf.state.mem[a0.ptr.obj], leaf.state)
             if d != exp():
                 chk.violation("C15.H", key + ":" + sname, "%s sets the offset to %r, expected %r" % (sname, d, exp()), fn=f["pretty"], file=loc(f["span"]))
+                ok = False
+            elif extra_arith(sim, leaf, d):
+                chk.violation("C15.H", key + ":" + sname + ":intermediate", "%s computes the offset %r through intermediate integer results %s: it overflows (panics in a debug build) for instants whose offset is representable"
+                              % (sname, d, extra_arith(sim, leaf, d)), fn=f["pretty"], file=loc(f["span"]))
                 ok = False
     if ok:
         chk.discharge(key)
